@@ -63,9 +63,9 @@ class NodalStateSpaceModel(sp.StateSpaceModel):
     current_source_index_mapping: map.LabelMapping
 
     def _row_for_potential(self, node_id: str, matrix: np.ndarray) -> np.ndarray:
-        if node_id in self.node_index_mapping:
-            return matrix[:][self.node_index_mapping[node_id]:self.node_index_mapping[node_id]+1]
-        return np.zeros((1,matrix.shape[1]))
+        if self.network.is_zero_node(node_id):
+            return np.zeros((1,matrix.shape[1]))
+        return matrix[:][self.node_index_mapping[node_id]:self.node_index_mapping[node_id]+1]
 
     def c_row_for_potential(self, node_id: str) -> np.ndarray:
         return self._row_for_potential(node_id, self.C)
